@@ -631,6 +631,8 @@ func TestC10(t *testing.T) {
 	}
 	c.Exhaustive(fmt.Sprintf("every message length 0..%d x {secretbox, box, sealed box, sign, auth} with fixed keys", maxLen), maxLen+1)
 
+	c10LongLengths(c, t)
+
 	c10Concurrent(c, t)
 }
 
